@@ -186,15 +186,15 @@ pub fn check_dt_grid(d: u32, h: u32, mi: u32, s: u32, us: u32) -> Result<bool, S
 /// Every comparison operator on two intervals of the same kind (0 = year-month, 1 = day-time)
 /// agrees with the numeric order of their counts.
 pub fn check_order_pair(kind: u8, a: i128, b: i128) -> Result<(), String> {
-    fn agree<T: PartialOrd + Ord + PartialEq>(x: &T, y: &T, want: Ordering) -> bool {
-        x.partial_cmp(y) == Some(want) && x.cmp(y) == want && (x == y) == (want == Ordering::Equal) && (x != y) == (want != Ordering::Equal) && (x < y) == (want == Ordering::Less) && (x <= y) == (want != Ordering::Greater) && (x > y) == (want == Ordering::Greater) && (x >= y) == (want != Ordering::Less)
+    fn agree<T: PartialOrd + Ord + PartialEq + Copy>(x: &T, y: &T, want: Ordering) -> bool {
+        ord_provided_ok(*x, *y, want) && x.partial_cmp(y) == Some(want) && x.cmp(y) == want && (x == y) == (want == Ordering::Equal) && (x != y) == (want != Ordering::Equal) && (x < y) == (want == Ordering::Less) && (x <= y) == (want != Ordering::Greater) && (x > y) == (want == Ordering::Greater) && (x >= y) == (want != Ordering::Less)
     }
     let want = a.cmp(&b);
     let ok = guarded(|| if kind == 0 { agree(&ad::ym(a as i32), &ad::ym(b as i32), want) } else { agree(&ad::dt(a as i64), &ad::dt(b as i64), want) })?;
     if ok {
         Ok(())
     } else {
-        Err(format!("{} {a} vs {b}: ==, !=, <, <=, >, >=, partial_cmp or cmp disagrees with the numeric order ({want:?})", if kind == 0 { "IntervalYM" } else { "IntervalDT" }))
+        Err(format!("{} {a} vs {b}: ==, !=, <, <=, >, >=, partial_cmp, cmp, max, min, clamp or sort disagrees with the numeric order ({want:?})", if kind == 0 { "IntervalYM" } else { "IntervalDT" }))
     }
 }
 
@@ -486,7 +486,7 @@ pub fn run(ctx: &Ctx) -> (Stats, Report) {
     let _ = ad::in_range;
 
     let rep = Report {
-        rule: format!("Year-month intervals: {} (plus +-3000 around zero and both limits); day-time intervals: every second within +-2 days (+0/+-1 us), every power of ten +-1, unit multiples +-1 us, range limits, {} seeded values on four magnitude scales; constructor validity grids with u32 extremes; out-of-range raw counts. Oracle: sign + div/rem decomposition of |value| in i128; constructors inverse and accepting exactly the well-formed tuples inside the symmetric range with the matching error kind; negation an involution onto the range; signed accessors = truncating division; ordering numeric. Non-trivial = negative, or within one unit of zero or of a limit, or a rejected tuple.", if ctx.thorough { "all 4,272,000,001 values" } else { "every 199th value" }, if ctx.thorough { "150,000,000" } else { "3,000,000" }),
+        rule: format!("Year-month intervals: {} (plus +-3000 around zero and both limits); day-time intervals: every second within +-2 days (+0/+-1 us), every power of ten +-1, unit multiples +-1 us, range limits, {} seeded values on four magnitude scales; constructor validity grids with u32 extremes; out-of-range raw counts. Oracle: sign + div/rem decomposition of |value| in i128; constructors inverse and accepting exactly the well-formed tuples inside the symmetric range with the matching error kind; negation an involution onto the range; signed accessors = truncating division; ordering numeric (==, !=, <, <=, >, >=, partial_cmp, cmp, and the provided Ord methods max / min / clamp and sorting, over all pairs of a 900-value pool). Non-trivial = negative, or within one unit of zero or of a limit, or a rejected tuple.", if ctx.thorough { "all 4,272,000,001 values" } else { "every 199th value" }, if ctx.thorough { "150,000,000" } else { "3,000,000" }),
         assumptions: vec!["second() is compared with the correctly rounded double of (signed microseconds within the minute)/10^6".into()],
         exhaustive: false,
         extra: Default::default(),
